@@ -1641,7 +1641,7 @@ func (f *File) SortBlocks() {
 	// lines in exclude blocks start to use semantic sort instead of lexicographic sort.
 	// See go.dev/issue/60028.
 	const semanticSortForExcludeVersionV = "v1.21"
-	useSemanticSortForExclude := f.Go != nil && semver.Compare("v"+f.Go.Version, semanticSortForExcludeVersionV) >= 0
+	useSemanticSortForExclude := f.Go != nil && semver.Compare("v"+goLangVersion(f.Go.Version), semanticSortForExcludeVersionV) >= 0
 
 	for _, stmt := range f.Syntax.Stmt {
 		block, ok := stmt.(*LineBlock)
@@ -1658,6 +1658,20 @@ func (f *File) SortBlocks() {
 			return less(block.Line[i], block.Line[j])
 		})
 	}
+}
+
+// goLangVersion returns the language version of the go version v: v without
+// a pre-release suffix ("1.22rc1" is a pre-release of language version 1.22).
+// Go versions with such a suffix are not valid semantic versions, so
+// comparing them with semver.Compare would treat them as older than any
+// release.
+func goLangVersion(v string) string {
+	for i := 0; i < len(v); i++ {
+		if 'a' <= v[i] && v[i] <= 'z' {
+			return v[:i]
+		}
+	}
+	return v
 }
 
 // removeDups removes duplicate exclude, replace and tool directives.
